@@ -15,7 +15,9 @@ from ..hist import build
 ID = 'C15'
 CHARS = ['0', '1', '2', '3', '5', '8', ';', ' ', '?', 'm', '@', '~', '\x7f', '_', '+', '-', '\uff11']
 TOKENS = ['0', '1', '2', '5', '7', '31', '38', '48', '58', '99', '255', '256', '01', 'x', '', '+1', '1_0', ' 7']
-VERB = ['[38', '[32;31', '[1 ', '[?', '[5:1', '[xm', '[A', '[3_1', '[+1']
+VERB = ['[38', '[32;31', '[1 ', '[?', '[5:1', '[xm', '[A', '[3_1', '[+1', '[01;31', '[ 4', '[38;5;007']
+# the same kind of text handed over as AnsiSetting objects (hist.mk_settings wraps un-prefixed codes)
+VERB_OBJ = ['01;31', ' 4;3 ', '38;5;196;1']
 SINGLE_KNOWN = (set(rt.SET) | set(rt.CLEAR))
 
 
@@ -103,10 +105,31 @@ def pool_plan(tier):
 _sgr = re.compile('\x1b\\[([^\x40-\x7e]*)m')
 
 
-def check_pool_value(v):
+def supplied_texts(h):
+    """Every setting text the history handed to the library (verbatim '[' texts without the bracket)."""
+    out = set()
+
+    def walk(x):
+        if isinstance(x, str):
+            out.add(x[1:] if x.startswith('[') else x)
+        elif isinstance(x, (list, tuple)):
+            for y in x:
+                walk(y)
+    walk(h)
+    return out
+
+
+def check_pool_value(v, h=None):
     bad = []
     text, cells = model.alpha_codes(v)
     used = [c for cell in cells for c in cell]
+    if h is not None:
+        # all settings of these pools are handed over as verbatim texts or AnsiSetting objects: whatever is in use must
+        # be one of the supplied texts, character for character (a copy that re-spells '01;31' as '1;31' is not intact)
+        sup = supplied_texts(h)
+        odd = sorted(set(c for c in used if c not in sup))
+        if odd:
+            bad.append(('setting-rewritten', 'settings in use %r are none of the supplied texts %r' % (odd, sorted(sup - {text}))))
     want_v = all(ref_valid(c) for c in used)
     want_p = all(ref_parsable(c) for c in used)
     for obj, nm in ((v, 'AnsiString'), (AnsiStr(v), 'AnsiStr')):
@@ -146,11 +169,13 @@ def run_task(task, acc):
             ops = list(base_gen(v, h))
             L = len(v)
             if L <= 4:
-                for vb in VERB:
+                for vb in VERB + VERB_OBJ:
                     for (s, e) in explore.ranges(L):
                         ops.append(['apply', vb, s, e, True])
                         if (s, e) == (0, L):
                             ops.append(['apply', vb, s, e, False])
+                # steps that copy setting objects: the right operand of a concatenation, a replacement
+                ops += [['selfcat'], ['rcat', ['plain', 'z']], ['replace', text[:1], 'zz', -1, True]]
             if len(h) == 1:
                 return ops[task['part']::task['parts']]
             return ops
@@ -162,7 +187,7 @@ def run_task(task, acc):
             acc.state(model.canon_hash(v))
             acc.evaluations += 1
             acc.transitions += 10
-            bad = check_pool_value(v)
+            bad = check_pool_value(v, h)
             if not bad:
                 acc.validated += 10
             for clause, detail in bad:
@@ -244,7 +269,7 @@ def replay(case):
     if case['kind'] == 'text':
         return check_text(case['text'])
     if case['kind'] == 'pool':
-        return check_pool_value(build(case['hist']))
+        return check_pool_value(build(case['hist']), case['hist'])
     from ..runner import Acc
     acc = Acc(0)
     run_always(acc)
